@@ -119,12 +119,18 @@ type asm struct {
 }
 type fixup struct{ at, label int }
 
+// genFork: fork level of the case being generated (PUSH0 exists from level 3 on)
+var genFork = 3
+
 func newAsm() *asm { return &asm{labels: map[int]int{}} }
 
 func (a *asm) op(o ...byte) *asm { a.b = append(a.b, o...); return a }
 func (a *asm) push(v *big.Int) *asm {
 	bs := v.Bytes()
 	if len(bs) == 0 {
+		if genFork < 3 {
+			return a.op(0x60, 0x00)
+		}
 		return a.op(0x5f)
 	}
 	if len(bs) > 32 {
@@ -618,6 +624,20 @@ func genGas(r *hx.Rand) uint64 {
 }
 
 func genProgCase(r *hx.Rand) *Case {
+	genFork = 3
+	if f := r.Intn(10); f < 3 { // 10% each under the three earlier tables
+		genFork = f
+	}
+	defer func() { genFork = 3 }()
+	c := genProgCaseAt(r)
+	if genFork != 3 {
+		f := genFork
+		c.Fork = &f
+	}
+	return c
+}
+
+func genProgCaseAt(r *hx.Rand) *Case {
 	w := &world{addrs: []string{contractAHex, contractBHex}}
 	if r.Bool() {
 		w.addrs = append(w.addrs, contractCHex)
@@ -648,7 +668,7 @@ func genProgCase(r *hx.Rand) *Case {
 		switch r.Intn(4) {
 		case 0: // stack limit: push until 1024 is exceeded
 			top := a.newLabel()
-			a.place(top).op(0x5f, 0x5f, 0x5f).pushLabel(top).op(0x56)
+			a.place(top).pushU(0).pushU(0).pushU(0).pushLabel(top).op(0x56)
 			c.Gas = 100000
 		case 1: // unbounded self recursion with all gas, result flag stored
 			a.pushU(0).pushU(0).pushU(0).pushU(0).pushU(0).op(0x30, 0x5a, 0xf1).pushU(1).op(0x55)
@@ -699,6 +719,6 @@ func aluProgram(vs []AluVec) []byte {
 		}
 		a.pushN(32, bigHex(v.A)).op(aluCode[v.Op]).pushN(2, big.NewInt(int64(32*i))).op(0x52)
 	}
-	a.pushN(2, big.NewInt(int64(32*len(vs)))).op(0x5f, 0xf3)
+	a.pushN(2, big.NewInt(int64(32*len(vs)))).op(0x60, 0x00, 0xf3)
 	return a.bytes()
 }
